@@ -37,6 +37,7 @@ type hdStats struct {
 	Structures map[string]int `json:"blind_structures"`
 	Stuck      int            `json:"stuck_hands"`
 	Withheld   int            `json:"withheld_responses_waited_out"`
+	LateExtends int           `json:"extensions_asked_after_the_deadline_passed"`
 	Crashed    int            `json:"crashed_histories"`
 	MaxSteps   int            `json:"max_backend_calls_per_hand"`
 	Distinct   int            `json:"distinct_histories"`
@@ -58,6 +59,7 @@ func mergeHD(d, s *hdStats) {
 	d.Faults += s.Faults
 	d.Stuck += s.Stuck
 	d.Withheld += s.Withheld
+	d.LateExtends += s.LateExtends
 	if s.MaxSteps > d.MaxSteps {
 		d.MaxSteps = s.MaxSteps
 	}
@@ -93,6 +95,8 @@ type hdHist struct {
 	t0          int64 // wall-clock second before the call that may have caused the states being written
 	written     int64 // UpdatedAt of the last hand state written to the trace
 	answered    int64 // UpdatedAt of the request state whose answers have been sent
+	actionTime  int
+	lateDone    bool   // the one late extension of this history has been made
 	withholdAt  string // at the first request of this kind one asked player stays silent and the 17 s time-out is waited out
 	withheld    bool
 }
@@ -584,6 +588,17 @@ func (h *hdHist) playHandSteps(maxSteps int) bool {
 				h.submit(actSpec{gameIDs[cur], "pass", 0}, false, false)
 				break
 			}
+			if h.actionTime == 1 && !h.lateDone && h.r.Intn(3) == 0 {
+				// let the clock run out (the published deadline is request time + 1 s), then ask for more time
+				h.lateDone = true
+				time.Sleep(2200 * time.Millisecond)
+				d := 1 + h.r.Intn(9)
+				ret, _ := h.rig.te.PlayerExtendActionDeadline(pid(gameIDs[cur]), d)
+				h.line("hd extend d=%d late=1 | ret=%d", d, ret)
+				schedBarrier(2)
+				h.flush()
+				h.st.LateExtends++
+			}
 			if h.r.Intn(7) == 0 {
 				d := 1 + h.r.Intn(30)
 				ret, _ := h.rig.te.PlayerExtendActionDeadline(pid(gameIDs[cur]), d)
@@ -650,6 +665,10 @@ func genHDHistory(r *rand.Rand, st *hdStats, hid int, hands int, faultPct, probe
 	}
 	st.Structures[structure]++
 	actionTime := 7
+	if r.Intn(6) == 0 {
+		actionTime = 1 // short clock: some extensions are asked for after the published deadline has passed
+	}
+	h.actionTime = actionTime
 	setting := pokertable.TableSetting{
 		TableID: fmt.Sprintf("h%d", hid),
 		Meta: pokertable.TableMeta{CompetitionID: "c", Rule: pokertable.CompetitionRule_Default, Mode: pokertable.CompetitionMode_CT, MaxDuration: 1000000,
@@ -702,6 +721,12 @@ func genHDHistory(r *rand.Rand, st *hdStats, hid int, hands int, faultPct, probe
 	time.Sleep(300 * time.Microsecond)
 	for g := 0; g < hands; g++ {
 		gcPre := rig.live().State.GameCount
+		// the continue handler has set the gate up for the next hand (count first, participants after); only then is the
+		// participant map read
+		if g > 0 {
+			waitFor(200*time.Millisecond, func() bool { return rig.gateCount() == gcPre+1 })
+			time.Sleep(1500 * time.Microsecond)
+		}
 		// everybody awaited signals
 		_, ready, _ := rig.gateState()
 		for id := range ready {
